@@ -27,6 +27,8 @@ enum Op {
     Branch { th: usize },
     Handoff { th: usize },
     Read { th: usize },
+    /// one tool_task_output_delta through the real TaskEmitter::emit of THE task of the case
+    TaskEmit { stderr: bool },
 }
 
 #[derive(Clone, Debug, PartialEq)]
@@ -54,6 +56,10 @@ enum M {
     Alloc,
     Index,
     SetNext,
+    TLock,
+    TChoose,
+    TAppend,
+    TUnlock,
 }
 
 fn locked_append() -> Vec<M> {
@@ -68,6 +74,7 @@ fn prog(op: &Op) -> Vec<M> {
         Op::PostNewest => [vec![M::Pick], locked_append()].concat(),
         Op::Branch { .. } | Op::Handoff { .. } => [vec![M::Target, M::Read], lineage()].concat(),
         Op::Read { .. } => vec![M::Target, M::Read],
+        Op::TaskEmit { .. } => vec![M::TLock, M::TChoose, M::Bcast, M::TAppend, M::TUnlock],
     }
 }
 
@@ -78,6 +85,7 @@ fn op_coq(op: &Op) -> String {
         Op::Branch { th } => format!("OBranch {}", coq_nat(*th as u64)),
         Op::Handoff { th } => format!("OHandoff {}", coq_nat(*th as u64)),
         Op::Read { th } => format!("ORead {}", coq_nat(*th as u64)),
+        Op::TaskEmit { .. } => "OTaskEmit EToolTaskOutputDelta".into(),
     }
 }
 fn setup_coq(s: &Setup) -> String {
@@ -173,6 +181,7 @@ fn do_op(store: &ContinuityStore, log_path: &std::path::Path, ids: &[String], op
         Op::Read { th } => {
             let _ = store.replay_events(&id_at(ids, *th));
         }
+        Op::TaskEmit { .. } => {}
     }
 }
 
@@ -235,6 +244,15 @@ impl Pc {
                 // exactly that one step is granted.
                 let end = self.cur_end();
                 let n = if self.pc < end && self.steps[self.pc] == M::Choose { 1 } else { end - self.pc };
+                self.pc = end;
+                self.op += 1;
+                n
+            }
+            "task.seq_chosen" => self.through(|m| m == M::TChoose),
+            "task.sent" => self.through(|m| m == M::Bcast),
+            "task.h_done" => {
+                let end = self.cur_end();
+                let n = end - self.pc;
                 self.pc = end;
                 self.op += 1;
                 n
@@ -394,6 +412,269 @@ fn run_leaf(setup: &[Setup], actors: &[Vec<Op>], choose: &mut dyn FnMut(usize, u
     Leaf { model_sched, obs, violation, inconclusive, choices, widths, grants: trace.steps.len() }
 }
 
+fn coarse_task(p: &str) -> bool {
+    p.starts_with("task.") || p == "start" || p == "log.before_lock"
+}
+
+/// >= 2 actors emitting on ONE task through the real TaskEmitter::emit (the stdout pump, the stderr
+/// pump and the control paths of a task share its seq counter), under the step scheduler.
+fn run_task_leaf(actors: &[Vec<Op>], choose: &mut dyn FnMut(usize, usize) -> usize) -> Leaf {
+    let scratch = Scratch::new("c01t");
+    let data_dir = scratch.path().join("data");
+    let ws = scratch.path().join("ws");
+    std::fs::create_dir_all(&data_dir).unwrap();
+    std::fs::create_dir_all(&ws).unwrap();
+    let rt = tokio::runtime::Builder::new_current_thread().enable_all().build().unwrap();
+    let (_app, driver) = rt.block_on(async { ripd::verif::build_app_with_task_driver(data_dir.clone(), ws.clone()) });
+    let log_path = data_dir.join("events.jsonl");
+    let before = std::fs::read(&log_path).unwrap_or_default();
+    let mut sched = Sched::new();
+    if let Some(s) = Arc::get_mut(&mut sched) {
+        s.step_timeout = Duration::from_secs(4);
+    }
+    sched.install();
+    let mut handles = vec![];
+    for (a, ops) in actors.iter().enumerate() {
+        let d = driver.clone();
+        let ops = ops.clone();
+        handles.push(sched.spawn(a, move || {
+            let rt = tokio::runtime::Builder::new_current_thread().enable_all().build().unwrap();
+            for (k, op) in ops.iter().enumerate() {
+                if let Op::TaskEmit { stderr } = op {
+                    rt.block_on(d.emit_output(*stderr, &format!("a{a}k{k}")));
+                }
+                rip_kernel::verif::point("task.h_done");
+            }
+        }));
+    }
+    let d = driver.clone();
+    let enabled = move |_a: usize, p: &'static str| -> bool {
+        match p {
+            "task.before_emit" => d.seq_free(),
+            "task.seq_chosen" => d.buffer_free(),
+            _ => true,
+        }
+    };
+    let mut sticky: Option<usize> = None;
+    let mut choices = vec![];
+    let mut widths = vec![];
+    let trace = sched.run(
+        |en| {
+            if let Some(s) = sticky {
+                if let Some((a, p)) = en.iter().find(|(a, _)| *a == s) {
+                    if !coarse_task(p) {
+                        return Some(*a);
+                    }
+                }
+            }
+            if let Some((a, _)) = en.iter().find(|(_, p)| !coarse_task(p)) {
+                sticky = Some(*a);
+                return Some(*a);
+            }
+            let i = if en.len() > 1 {
+                let i = choose(choices.len(), en.len()).min(en.len() - 1);
+                choices.push(i);
+                widths.push(en.len());
+                i
+            } else {
+                0
+            };
+            sticky = Some(en[i].0);
+            Some(en[i].0)
+        },
+        &enabled,
+    );
+    for h in handles {
+        let _ = h.join();
+    }
+    Sched::uninstall();
+    let mut pcs: Vec<Pc> = actors.iter().map(|ops| Pc::new(ops)).collect();
+    let mut model_sched = vec![];
+    for (i, (a, _)) in trace.steps.iter().enumerate() {
+        let arrival = trace.steps[i + 1..].iter().find(|(b, _)| b == a).map(|(_, p)| *p).unwrap_or("done");
+        let n = pcs[*a].arrive(arrival);
+        for _ in 0..n {
+            model_sched.push(*a as u64);
+        }
+    }
+    let inconclusive = trace.in_flight_timeouts > 0 || trace.deadlock;
+    let after = std::fs::read(&log_path).unwrap_or_default();
+    let mut violation = None;
+    let suffix = if after.len() >= before.len() && after[..before.len()] == before[..] { after[before.len()..].to_vec() } else { vec![] };
+    let parsed = parse_log(&suffix);
+    if !trace.panicked.is_empty() {
+        violation = Some(("an emitter panicked".to_string(), "panic".to_string()));
+    } else if trace.deadlock {
+        violation = Some(("no emitter enabled although not all are done".to_string(), "scheduler_deadlock".to_string()));
+    } else if after.len() < before.len() || after[..before.len()] != before[..] {
+        violation = Some(("log content before the emitters ran is no longer a prefix".into(), "log_prefix_changed".into()));
+    } else {
+        match &parsed {
+            Err(e) => violation = Some((format!("events.jsonl is not whole frames: {e}"), "partial_frame".into())),
+            Ok(hs) => {
+                let fresh = rip_log::EventLog::new(&log_path).and_then(|l| l.replay_validated().map(|_| ()));
+                let v = first_order_violation(hs);
+                let expected: usize = actors.iter().map(|o| o.len()).sum();
+                if v.is_some() || fresh.is_err() {
+                    let what = v.clone().or_else(|| fresh.err().map(|e| e.to_string())).unwrap_or_default();
+                    violation = Some((what, "task_stream_file_order".into()));
+                } else if hs.len() != expected && !inconclusive {
+                    violation = Some((format!("{} task frames in the log, {} emitted", hs.len(), expected), "task_frame_lost".into()));
+                }
+            }
+        }
+    }
+    let hs = parsed.unwrap_or_default();
+    let mut obs = vec![if first_order_violation(&hs).is_none() { 1 } else { 0 }];
+    obs.extend(canon_log(&hs));
+    drop(rt);
+    Leaf { model_sched, obs, violation, inconclusive, choices, widths, grants: trace.steps.len() }
+}
+
+/// free-running search: a real pipes task printing to stdout and stderr at once on a multi-thread
+/// runtime; oracle only (file order of every stream, validated replay)
+fn task_stress(ctx: &mut Ctx, lines: u32, seed: u64) {
+    let scratch = Scratch::new("c01s");
+    let data_dir = scratch.path().join("data");
+    let ws = scratch.path().join("ws");
+    std::fs::create_dir_all(&data_dir).unwrap();
+    std::fs::create_dir_all(&ws).unwrap();
+    let rt = tokio::runtime::Builder::new_multi_thread().worker_threads(4).enable_all().build().unwrap();
+    let log_path = data_dir.join("events.jsonl");
+    let done = rt.block_on(async {
+        let engine = match ripd::SessionEngine::new(data_dir.clone(), ws.clone(), None) {
+            Ok(e) => Arc::new(e),
+            Err(_) => return false,
+        };
+        // a short pause per round so that the two pipes deliver many separate chunks (one frame each)
+        let cmd = format!("for i in $(seq 1 {lines}); do echo out-$i-{seed}; echo err-$i-{seed} 1>&2; sleep 0.002; done");
+        let id = ripd::verif::spawn_shell_task(&engine, "bash", json!({ "command": cmd }), false);
+        // wait (generously) for the terminal status frame of the task
+        for _ in 0..1200 {
+            tokio::time::sleep(Duration::from_millis(50)).await;
+            if let Ok(hs) = parse_log(&std::fs::read(&log_path).unwrap_or_default()) {
+                let fin = hs.iter().any(|h| h.sid == id && matches!(&h.ev.kind, rip_kernel::EventKind::ToolTaskStatus { status, .. } if format!("{status:?}").to_lowercase().contains("exit") || format!("{status:?}").to_lowercase().contains("fail")));
+                if fin {
+                    tokio::time::sleep(Duration::from_millis(100)).await;
+                    return true;
+                }
+            }
+        }
+        false
+    });
+    ctx.res.evaluations += 1;
+    ctx.leaves += 1;
+    ctx.res.oracle_checks += 1;
+    ctx.res.bump("kind=task_stress_free_running");
+    if !done {
+        ctx.res.bump("task_stress_not_finished_in_time");
+    }
+    let bytes = std::fs::read(&log_path).unwrap_or_default();
+    // an unterminated last line can only be the frame being written when we stopped waiting
+    let cut = bytes.iter().rposition(|b| *b == b'\n').map(|i| i + 1).unwrap_or(0);
+    match parse_log(&bytes[..cut]) {
+        Err(e) => ctx.res.oracle_violations.push(OracleViolation { case_id: -1, what: format!("task stress: {e}"), class: "partial_frame".into(), replay: json!({"task_stress_lines": lines, "seed": seed}) }),
+        Ok(hs) => {
+            ctx.res.bump_by("task_stress_frames", hs.len() as u64);
+            if let Some(v) = first_order_violation(&hs) {
+                ctx.res.oracle_violations.push(OracleViolation { case_id: -1, what: format!("task stress (stdout and stderr pumps of one pipes task): {v}"), class: "task_stream_file_order".into(), replay: json!({"task_stress_lines": lines, "seed": seed}) });
+                ctx.res.bump("violation=task_stream_file_order");
+            }
+        }
+    }
+    drop(rt);
+}
+
+/// A handful of provider-script sessions (run streams are written by session.rs with a run-local
+/// counter threaded through the provider pipe and the tool runner): oracle only - every stream of the
+/// final log is 0,1,2,.. in file order.
+fn session_case(ctx: &mut Ctx, variant: usize) {
+    use rv::provider::{sse_event, Scripted, ScriptedProvider, SSE_DONE};
+    let scratch = Scratch::new("c01r");
+    let data_dir = scratch.path().join("data");
+    let ws = scratch.path().join("ws");
+    std::fs::create_dir_all(&data_dir).unwrap();
+    std::fs::create_dir_all(&ws).unwrap();
+    let _ = std::fs::write(ws.join("a.txt"), b"hello\n");
+    let ev = |name: &str, v: serde_json::Value| sse_event(name, &v);
+    let created = |r: &str| ev("response.created", json!({"type": "response.created", "sequence_number": 0, "response": {"id": r}}));
+    let completed = |r: &str, n: u64| ev("response.completed", json!({"type": "response.completed", "sequence_number": n, "response": {"id": r}}));
+    let delta = |n: u64| ev("response.output_text.delta", json!({"type": "response.output_text.delta", "sequence_number": n, "item_id": "m1", "output_index": 0, "content_index": 0, "delta": format!("d{n}")}));
+    let call = |n: u64, name: &str, args: &str| {
+        ev("response.output_item.done", json!({"type": "response.output_item.done", "sequence_number": n, "output_index": 0,
+            "item": {"type": "function_call", "id": "fc_0", "call_id": "call_0", "name": name, "arguments": args, "status": "completed"}}))
+    };
+    let text_resp = |r: &str| Scripted::sse_text(&format!("{}{}{}{}", created(r), delta(1), completed(r, 2), SSE_DONE));
+    let call_resp = |r: &str, name: &str, args: &str| Scripted::sse_text(&format!("{}{}{}{}", created(r), call(1, name, args), completed(r, 2), SSE_DONE));
+    use rip_provider_openresponses::ToolChoiceParam as T;
+    // (script, stateless_history, tool_choice)
+    let (script, stateless, choice, label) = match variant {
+        0 => (vec![text_resp("r0")], false, T::auto(), "text"),
+        1 => (vec![call_resp("r0", "ls", "{\"path\":\".\"}"), text_resp("r1")], false, T::auto(), "ls_call_then_text"),
+        2 => (vec![call_resp("r0", "ls", "{\"path\":\".\"}"), text_resp("r1")], true, T::auto(), "stateless_ls_call_then_text"),
+        // the follow-up request replays a function call with an empty name: it fails local validation
+        3 => (vec![call_resp("r0", "", "{}"), text_resp("r1")], true, T::auto(), "stateless_empty_name_call_invalid_followup"),
+        4 => (vec![call_resp("r0", "no_such_tool", "{}"), text_resp("r1")], false, T::auto(), "unknown_tool_call"),
+        // the very first request fails local validation
+        _ => (vec![text_resp("r0")], false, T::new(json!({"type": "function"})), "invalid_tool_choice_first_request"),
+    };
+    let provider = ScriptedProvider::start(script);
+    let cfg = ripd::verif::OpenResponsesConfig {
+        endpoint: provider.url.clone(),
+        api_key: None,
+        model: Some("scripted".into()),
+        headers: vec![],
+        tool_choice: choice,
+        followup_user_message: None,
+        stateless_history: stateless,
+        parallel_tool_calls: false,
+    };
+    let rt = tokio::runtime::Builder::new_multi_thread().worker_threads(2).enable_all().build().unwrap();
+    let log_path = data_dir.join("events.jsonl");
+    let ended = rt.block_on(async {
+        let engine = match ripd::SessionEngine::new(data_dir.clone(), ws.clone(), None) {
+            Ok(e) => e,
+            Err(_) => return false,
+        };
+        let handle = engine.create_session();
+        let sid = handle.session_id.clone();
+        engine.spawn_session(handle, "do it".to_string(), None, Some(cfg));
+        for _ in 0..1200 {
+            tokio::time::sleep(Duration::from_millis(50)).await;
+            let bytes = std::fs::read(&log_path).unwrap_or_default();
+            let cut = bytes.iter().rposition(|b| *b == b'\n').map(|i| i + 1).unwrap_or(0);
+            if let Ok(hs) = parse_log(&bytes[..cut]) {
+                if hs.iter().any(|h| h.sid == sid && matches!(h.ev.kind, rip_kernel::EventKind::SessionEnded { .. })) {
+                    tokio::time::sleep(Duration::from_millis(150)).await;
+                    return true;
+                }
+            }
+        }
+        false
+    });
+    ctx.res.evaluations += 1;
+    ctx.leaves += 1;
+    ctx.res.oracle_checks += 1;
+    ctx.res.bump(&format!("kind=session_script_{label}"));
+    if !ended {
+        ctx.res.bump("session_not_ended_in_time");
+    }
+    let bytes = std::fs::read(&log_path).unwrap_or_default();
+    let cut = bytes.iter().rposition(|b| *b == b'\n').map(|i| i + 1).unwrap_or(0);
+    match parse_log(&bytes[..cut]) {
+        Err(e) => ctx.res.oracle_violations.push(OracleViolation { case_id: -1, what: format!("session script {label}: {e}"), class: "partial_frame".into(), replay: json!({"session_script": label}) }),
+        Ok(hs) => {
+            ctx.res.bump_by("session_script_frames", hs.len() as u64);
+            if let Some(v) = first_order_violation(&hs) {
+                ctx.res.oracle_violations.push(OracleViolation { case_id: -1, what: format!("session script {label}: {v}"), class: "session_stream_file_order".into(), replay: json!({"session_script": label}) });
+                ctx.res.bump("violation=session_stream_file_order");
+            }
+        }
+    }
+    drop(rt);
+    drop(provider);
+}
+
 /// executable class of an order violation (computed on the failing case)
 fn classify(setup: &[Setup], hs: &[Hdr], before_len: usize, after: &[u8]) -> String {
     // which stream is broken, and was that thread created during the concurrent phase?
@@ -434,6 +715,14 @@ struct Case {
 }
 impl Case {
     fn coq(&self, leaf: &Leaf) -> String {
+        if self.actors.iter().flatten().any(|o| matches!(o, Op::TaskEmit { .. })) {
+            return format!(
+                "{{| c1_setup := []; c1_actors := [{}]; c1_sched := {}; c1_expect := {} |}}",
+                self.actors.iter().map(|ops| format!("[{}]", ops.iter().map(op_coq).collect::<Vec<_>>().join("; "))).collect::<Vec<_>>().join("; "),
+                coq_list_n(&leaf.model_sched),
+                coq_list_n(&leaf.obs)
+            );
+        }
         format!(
             "{{| c1_setup := [KCap CapEnsureDefault 0%nat fact_ok{}{}]; c1_actors := [{}]; c1_sched := {}; c1_expect := {} |}}",
             if self.setup.is_empty() { "" } else { "; " },
@@ -506,12 +795,17 @@ impl Ctx {
 fn exhaustive(ctx: &mut Ctx, case: &Case, cap: usize, kind: &str) {
     let mut prefix: Vec<usize> = vec![];
     let mut n = 0;
+    let is_task = case.actors.iter().flatten().any(|o| matches!(o, Op::TaskEmit { .. }));
     loop {
         if ctx.stop() {
             break;
         }
         let p = prefix.clone();
-        let leaf = run_leaf(&case.setup, &case.actors, &mut |i, _w| p.get(i).cloned().unwrap_or(0));
+        let leaf = if is_task {
+            run_task_leaf(&case.actors, &mut |i, _w| p.get(i).cloned().unwrap_or(0))
+        } else {
+            run_leaf(&case.setup, &case.actors, &mut |i, _w| p.get(i).cloned().unwrap_or(0))
+        };
         ctx.record(case, &leaf, kind);
         n += 1;
         // next prefix: rightmost decision that still has an untried alternative
@@ -611,6 +905,40 @@ fn main() {
             actors: vec![vec![Op::Append { t: 4, th: 0 }], vec![Op::Append { t: 5, th: 0 }]],
         };
         exhaustive(&mut ctx, &s3, 30, "corpus_s3_stale_prefix_restart");
+    }
+
+    // ---- a READ between the restart and the first append (stale well-formed sidecar prefix): the read
+    // path must not influence the numbering
+    for x in [Fault::CutLine, Fault::Rollback(2)] {
+        let case = Case {
+            setup: vec![Setup::Msg { th: 0 }, Setup::Msg { th: 0 }, Setup::Msg { th: 0 }, Setup::Fault { x, th: 0 }, Setup::Restart],
+            actors: vec![vec![Op::Read { th: 0 }, Op::Append { t: 4, th: 0 }], vec![Op::Append { t: 5, th: 0 }]],
+        };
+        exhaustive(&mut ctx, &case, 40, "corpus_stale_prefix_restart_read_then_append");
+    }
+
+    // ---- task stream: concurrent emitters of ONE task (stdout pump, stderr pump, control path)
+    let e = |stderr: bool| Op::TaskEmit { stderr };
+    let task_cases: Vec<Vec<Vec<Op>>> = vec![
+        vec![vec![e(false)], vec![e(true)]],
+        vec![vec![e(false), e(false)], vec![e(true), e(true)]],
+        vec![vec![e(false)], vec![e(true)], vec![e(false)]],
+    ];
+    for (i, actors) in task_cases.into_iter().enumerate() {
+        let case = Case { setup: vec![], actors };
+        exhaustive(&mut ctx, &case, if thorough { 3000 } else { [60, 120, 120][i] }, "exhaustive_task_emitters");
+    }
+    for k in 0..(if thorough { 12 } else { 2 }) {
+        if !ctx.stop() {
+            task_stress(&mut ctx, if thorough { 400 } else { 150 }, a.seed * 100 + k);
+        }
+    }
+
+    // ---- run (session) streams driven by provider scripts, incl. requests that fail local validation
+    for v in 0..6 {
+        if !ctx.stop() {
+            session_case(&mut ctx, v);
+        }
     }
 
     // ---- exhaustive two-actor cases
